@@ -165,6 +165,15 @@ class Analysis:
             c = W.cmp_parts(varg.test)
             if c and isinstance(c[0], ast.Name) and c[0].id == "V" and isinstance(c[2], ast.Constant) and c[2].value is None:
                 default = varg.body if isinstance(c[1], ast.Is) else varg.orelse
+        # the same default written as a statement:  if V is None: V = set(self.V)   ...   cls(.., V=V)
+        if isinstance(varg, ast.Name):
+            for st in f.node.body:
+                if isinstance(st, ast.If) and not st.orelse and len(st.body) == 1 and isinstance(st.body[0], ast.Assign):
+                    c = W.cmp_parts(st.test)
+                    a = st.body[0]
+                    if c and isinstance(c[0], ast.Name) and c[0].id == varg.id and isinstance(c[1], ast.Is) and isinstance(c[2], ast.Constant) \
+                            and c[2].value is None and len(a.targets) == 1 and W.is_name(a.targets[0], varg.id):
+                        default = a.value
         env = {"self": Val(DERIVED, typ=f.cls, root="self")}
         for p in f.node.args.kwonlyargs + f.node.args.args:
             env.setdefault(p.arg, Val(DERIVED, root=f"param:{p.arg}"))
@@ -794,7 +803,9 @@ class _Walker:
                 return Val(DEEP, typ=typ, vfresh=vf)
             if name in ("copy",) and not call.args:
                 return Val(SHALLOW, typ=rv.typ)
-            if name in ("get",):
+            if name in ("get", "setdefault"):
+                # an element of a container this activation allocated (deeply fresh) is its own; `setdefault` may also store its
+                # second argument, which is fresh when it is a literal
                 return Val(DERIVED, root=rv.root or "unknown") if rv.kind != DEEP else Val(DEEP, root=rv.root)
             if name in ("pop", "popitem", "popleft"):
                 return Val(DERIVED, root=rv.root or "unknown") if rv.kind != DEEP else Val(DEEP, root=rv.root)
